@@ -404,6 +404,41 @@ theorem init_solve_touches_only_its_input (E : Env) (st : RState) (u inp : Nat) 
       · omega
       · exact hno h)]
 
+/-- **the unit's own solution starts from what the last pre-processor returned - at the first and at EVERY later
+solve**: when `init_solve` is done, the unit's outgoing profile carries the marks of the last pre-processor's output
+(of the handed-in profile if no processor ran), the same as `in_profile`.  `st` is ANY state: if the unit has no out
+profile yet, `out_profile` is a new object (different from `in_profile`); if it has one - a second `solve()`, every
+round of an enclosing sequence's loop - that SAME object is re-used and what it carried (the hand-over and the results
+of the earlier solve) is replaced by the output of the last pre-processor of THIS solve; never by the profile as the
+caller passed it, which differs as soon as a pre-processor hands back a new object (example `exSt1` below). -/
+theorem out_profile_is_last_pre_output (E : Env) (st : RState) (u inp : Nat) (hin : inp < st.heap.n) :
+    ∃ ip op, (initSolve E st u inp).1.uin u = some ip ∧ (initSolve E st u inp).1.uout u = some op ∧
+      (∀ o, st.uout u = some o → op = o) ∧
+      (st.uout u = none → st.heap.n ≤ op ∧ op ≠ ip) ∧
+      (initSolve E st u inp).1.heap.marks op =
+        (initSolve E st u inp).1.heap.marks (lastRet inp (initSolve E st u inp).2) ∧
+      (initSolve E st u inp).1.heap.marks op = (initSolve E st u inp).1.heap.marks ip := by
+  obtain ⟨_, _, _, ip, hip, _, _, hm⟩ := in_profile_is_last_pre_output E st u inp hin
+  obtain ⟨h1, h2, _, _, _⟩ := init_solve_touches_only_its_input E st u inp hin
+  obtain ⟨a1, _, _, _⟩ := chain_frame E true u (walk E.H true (E.ucls u)) st.heap inp hin
+  have hipn : ip = (preChain E st u inp).1.n := by
+    rw [initSolve_uin] at hip; simpa using hip.symm
+  cases ho : st.uout u with
+  | some o =>
+    obtain ⟨b1, b2⟩ := h1 o ho
+    exact ⟨ip, o, hip, b1, fun o' h' => by simpa using h', fun h' => by simp at h', b2, by rw [b2, hm]⟩
+  | none =>
+    refine ⟨ip, (preChain E st u inp).1.n + 1, hip, by rw [initSolve_uout]; simp [ho], fun o' h' => by simp at h',
+      fun _ => ⟨Nat.le_succ_of_le a1, by omega⟩, ?_, ?_⟩
+    · obtain ⟨op, c1, _, c3⟩ := h2 ho
+      rw [initSolve_uout] at c1
+      simp [ho] at c1
+      rw [c1]; exact c3
+    · obtain ⟨op, c1, _, c3⟩ := h2 ho
+      rw [initSolve_uout] at c1
+      simp [ho] at c1
+      rw [c1, c3, hm]
+
 /-! ## 6. Solving: the post-processors -/
 
 /-- **the post-processor chain threads**: it consults exactly the post-walk of the unit's class, starts on a NEW
@@ -493,6 +528,95 @@ theorem resolve_asks_factories_again (E E' : Env) (st : RState) (u inp inp' : Na
       procsRun post = (walk E'.H false (E'.ucls u)).filterMap (fun f => E'.fac f u) :=
   solve_runs_what_factories_return_now E' (solveLeaf E st u inp).1 u inp'
 
+/-- **everything `solve` hands on comes from the last pre-processor's output** (`preOutMarks` = its marks when
+`init_solve` is done), from ANY state `st` in which the unit's out profile - if it has one - is an existing object
+(`hwf`; first solve, second solve, any round of a sequence):
+* when `solve` returns, `out_profile` (the object the unit had before, if any) carries exactly the last pre-processor's
+  output followed by the own solution's mark - nothing of an earlier solve, nothing of the post-processors;
+* the post-processor chain starts on a NEW object `n` of a heap `H0` carrying the same, threads, and `solve` returns its
+  last output;
+* so without post-processors the returned profile carries the last pre-processor's output and the own mark. -/
+theorem solve_hands_on_last_pre_output (E : Env) (st : RState) (u inp : Nat) (hin : inp < st.heap.n)
+    (hwf : ∀ o, st.uout u = some o → o < st.heap.n) :
+    ∃ op, (solveLeaf E st u inp).1.uout u = some op ∧ (∀ o, st.uout u = some o → op = o) ∧
+      op < (solveLeaf E st u inp).1.heap.n ∧
+      (solveLeaf E st u inp).1.heap.marks op = preOutMarks E st u inp ++ [.own u] ∧
+      (∃ post lv H0, (solveLeaf E st u inp).2.2 =
+          .enter u inp :: (initSolve E st u inp).2 ++ .own u :: (post ++ [lv]) ∧
+        post = (chain E false u (walk E.H false (E.ucls u)) H0 (initSolve E st u inp).1.heap.n).2.2 ∧
+        H0.marks (initSolve E st u inp).1.heap.n = preOutMarks E st u inp ++ [.own u] ∧
+        threads (initSolve E st u inp).1.heap.n post ∧
+        (solveLeaf E st u inp).2.1 = lastRet (initSolve E st u inp).1.heap.n post) ∧
+      ((∀ f ∈ walk E.H false (E.ucls u), E.fac f u = none) →
+        (solveLeaf E st u inp).1.heap.marks (solveLeaf E st u inp).2.1 = preOutMarks E st u inp ++ [.own u]) := by
+  obtain ⟨ip, op, _, hop, hsame, hnew, hm, _⟩ := out_profile_is_last_pre_output E st u inp hin
+  obtain ⟨a1, _, _, _⟩ := chain_frame E true u (walk E.H true (E.ucls u)) st.heap inp hin
+  -- the out profile exists when `init_solve` is done
+  have hlt : op < (initSolve E st u inp).1.heap.n := by
+    rw [initSolve_heap_n]
+    cases ho : st.uout u with
+    | some o =>
+      have := hsame o ho
+      have := hwf o ho
+      have : st.heap.n ≤ (preChain E st u inp).1.n := a1
+      simp; omega
+    | none =>
+      rw [initSolve_uout] at hop
+      simp [ho] at hop
+      simp; omega
+  have hgd : ((ownStep (initSolve E st u inp).1 u).uout u).getD 0 = op := by rw [ownStep_uout, hop]; rfl
+  have hown : (ownStep (initSolve E st u inp).1 u).heap.marks op = preOutMarks E st u inp ++ [.own u] := by
+    rw [ownStep_marks, hop]
+    simp only [Option.getD_some, if_true]
+    rw [hm]; rfl
+  obtain ⟨b1, b2, b3, b4⟩ := postChain_frame E (ownStep (initSolve E st u inp).1 u) u
+  refine ⟨op, ?_, hsame, ?_, ?_, ?_, ?_⟩
+  · rw [solveLeaf_eq, finishSolve_eq]; exact hop
+  · rw [solveLeaf_eq, finishSolve_eq]
+    show op < (postChain E (ownStep (initSolve E st u inp).1 u) u).1.n
+    have : (ownStep (initSolve E st u inp).1 u).heap.n < (postChain E (ownStep (initSolve E st u inp).1 u) u).1.n := b3
+    rw [ownStep_n] at this
+    omega
+  · rw [solveLeaf_eq, finishSolve_eq]
+    show (postChain E (ownStep (initSolve E st u inp).1 u) u).1.marks op = _
+    rw [b4 op hlt, hown]
+  · refine ⟨(postChain E (ownStep (initSolve E st u inp).1 u) u).2.2, leaveEv E (ownStep (initSolve E st u inp).1 u) u,
+      ((ownStep (initSolve E st u inp).1 u).heap.alloc ((ownStep (initSolve E st u inp).1 u).heap.marks op)).1,
+      ?_, ?_, ?_, chain_threads _ _ _ _ _ _, chain_lastRet _ _ _ _ _ _⟩
+    · rw [solveLeaf_eq, finishSolve_eq]
+    · unfold postChain; rw [hgd]; rfl
+    · rw [hown]; simp [Heap.alloc, ownStep_n]
+  · intro hn
+    rw [solveLeaf_eq, finishSolve_eq]
+    show (postChain E (ownStep (initSolve E st u inp).1 u) u).1.marks (postChain E (ownStep (initSolve E st u inp).1 u) u).2.1 = _
+    obtain ⟨c1, c2⟩ := chain_all_none E false u (walk E.H false (E.ucls u))
+      ((ownStep (initSolve E st u inp).1 u).heap.alloc
+        ((ownStep (initSolve E st u inp).1 u).heap.marks (((ownStep (initSolve E st u inp).1 u).uout u).getD 0))).1
+      (ownStep (initSolve E st u inp).1 u).heap.n hn
+    unfold postChain
+    rw [c1, c2, hgd, hown]
+    simp [Heap.alloc]
+
+/-- **a later solve of the same unit re-uses its out profile and refreshes it from the last pre-processor's output of
+THAT solve**: after a solve under `E`, `init_solve` of a solve under `E'` on the profile `inp'` leaves `out_profile`
+the SAME object `op` the first solve left, now carrying what the last pre-processor returned at this solve - the same
+as the new `in_profile` object `ip ≠ op`. -/
+theorem resolve_out_profile_is_last_pre_output (E E' : Env) (st : RState) (u inp inp' : Nat)
+    (hin : inp < st.heap.n) (hwf : ∀ o, st.uout u = some o → o < st.heap.n)
+    (hin' : inp' < (solveLeaf E st u inp).1.heap.n) :
+    ∃ op, (solveLeaf E st u inp).1.uout u = some op ∧
+      (initSolve E' (solveLeaf E st u inp).1 u inp').1.uout u = some op ∧
+      (initSolve E' (solveLeaf E st u inp).1 u inp').1.heap.marks op =
+        preOutMarks E' (solveLeaf E st u inp).1 u inp' ∧
+      ∃ ip, (initSolve E' (solveLeaf E st u inp).1 u inp').1.uin u = some ip ∧ ip ≠ op ∧
+        (initSolve E' (solveLeaf E st u inp).1 u inp').1.heap.marks ip =
+          preOutMarks E' (solveLeaf E st u inp).1 u inp' := by
+  obtain ⟨op, hop, _, hlt, _⟩ := solve_hands_on_last_pre_output E st u inp hin hwf
+  obtain ⟨h1, _, _, _, _⟩ := init_solve_touches_only_its_input E' (solveLeaf E st u inp).1 u inp' hin'
+  obtain ⟨b1, b2⟩ := h1 op hop
+  obtain ⟨_, _, _, ip, hip, hge, _, hm⟩ := in_profile_is_last_pre_output E' (solveLeaf E st u inp).1 u inp' hin'
+  exact ⟨op, hop, b1, b2, ip, hip, by omega, hm⟩
+
 /-- **inside a sequence**: the sequence's own pre-chain, then its iterations (each: own marker, then the members in
 list order, each member a complete `solve` of its own that receives what its predecessor returned), then the
 sequence's post-chain -/
@@ -516,6 +640,21 @@ theorem members_threaded (E : Env) (c : Nat) (cs : List Nat) (st : RState) (cur 
        (solveSubs E cs (solveLeaf E st c cur).1 (solveLeaf E st c cur).2.1).2.1,
        (solveLeaf E st c cur).2.2 ++ (solveSubs E cs (solveLeaf E st c cur).1 (solveLeaf E st c cur).2.1).2.2) :=
   solveSubs_cons E c cs st cur
+
+/-- **the following unit continues from it**: in a round of a sequence - from ANY state, so in the first round as in
+every later one, where every member's out profile is re-used - the member `d` behind a member `c` without
+post-processors is entered with the profile `c`'s solve returned, and that profile carries the output of `c`'s last
+pre-processor followed by `c`'s own mark (with post-processors: `solve_hands_on_last_pre_output`, the chain starts on
+that). -/
+theorem sequence_member_hands_on_last_pre_output (E : Env) (c d : Nat) (cs : List Nat) (st : RState) (cur : Nat)
+    (hin : cur < st.heap.n) (hwf : ∀ o, st.uout c = some o → o < st.heap.n)
+    (hn : ∀ f ∈ walk E.H false (E.ucls c), E.fac f c = none) :
+    ∃ r rest, (solveSubs E (c :: d :: cs) st cur).2.2 = (solveLeaf E st c cur).2.2 ++ .enter d r :: rest ∧
+      r = (solveLeaf E st c cur).2.1 ∧
+      (solveLeaf E st c cur).1.heap.marks r = preOutMarks E st c cur ++ [.own c] := by
+  obtain ⟨_, _, _, _, _, _, h6⟩ := solve_hands_on_last_pre_output E st c cur hin hwf
+  rw [solveSubs_cons, solveSubs_cons, solveLeaf_eq E (solveLeaf E st c cur).1 d]
+  exact ⟨(solveLeaf E st c cur).2.1, _, rfl, rfl, h6 hn⟩
 
 /-- **scope while solving a sequence**: whatever is consulted anywhere in the trace – for the sequence itself or for
 a member, in any iteration – is a factory that the walk of THAT unit's class yields: registrations on the
@@ -654,6 +793,46 @@ example : (initSolve exE' exSt1 0 0).1.uout 0 = some 3 ∧ (initSolve exE' exSt1
     lastRet 0 (initSolve exE' exSt1 0 0).2 = 0 ∧
     (initSolve exE' exSt1 0 0).1.heap.marks 3 = [.proc 110, .proc 110, .proc 112, .proc 116] ∧
     (initSolve exE' exSt1 0 0).1.heap.marks 0 = [.proc 110, .proc 110, .proc 112, .proc 116] := by decide
+
+/-- `out_profile_is_last_pre_output`, `resolve_out_profile_is_last_pre_output` on a RE-SOLVE in which a pre-processor
+hands back a NEW object: `exSt1` solved again under `exE` on profile 0 (which carries `[110]` from the first solve).
+110 marks object 0 in place, 111 returns the new object 5, 116 marks that: the last pre-processor's output is object 5
+with `[110, 110, 111, 116]`, while the profile as the CALLER passed it (object 0) carries `[110, 110]`.  `in_profile` is
+the new object 6, `out_profile` is STILL object 3, and both carry what object 5 carries - not what object 0 carries. -/
+example : 0 < exSt1.heap.n ∧ lastRet 0 (initSolve exE exSt1 0 0).2 = 5 ∧
+    (initSolve exE exSt1 0 0).1.uin 0 = some 6 ∧ (initSolve exE exSt1 0 0).1.uout 0 = some 3 ∧
+    preOutMarks exE exSt1 0 0 = [.proc 110, .proc 110, .proc 111, .proc 116] ∧
+    (initSolve exE exSt1 0 0).1.heap.marks 3 = [.proc 110, .proc 110, .proc 111, .proc 116] ∧
+    (initSolve exE exSt1 0 0).1.heap.marks 6 = [.proc 110, .proc 110, .proc 111, .proc 116] ∧
+    (initSolve exE exSt1 0 0).1.heap.marks 0 = [.proc 110, .proc 110] := by decide
+
+/-- the hypotheses of `solve_hands_on_last_pre_output` / `resolve_out_profile_is_last_pre_output` /
+`sequence_member_hands_on_last_pre_output` hold of `exSt` (no out profile yet) and of `exSt1` (out profile = object 3) -/
+example : (∀ o, exSt.uout 0 = some o → o < exSt.heap.n) ∧ (∀ o, exSt1.uout 0 = some o → o < exSt1.heap.n) := by
+  refine ⟨fun o h => ?_, fun o h => ?_⟩
+  · have h0 : exSt.uout 0 = none := by decide
+    rw [h0] at h; cases h
+  · have h3 : exSt1.uout 0 = some 3 := by decide
+    rw [h3] at h; cases h; decide
+
+/-- the factories as in `exE`, but no post-processor for any unit (14, 15 return nothing) and 12 returns nothing -/
+def exE2 : Env :=
+  { exE with fac := fun f _ => if f = 12 ∨ f = 14 ∨ f = 15 then none else some (f + 100) }
+
+/-- `solve_hands_on_last_pre_output` on that re-solve: `out_profile` (object 3) and - no post-processor running - the
+returned profile (object 7) carry the last pre-processor's output followed by the own mark; the marks of the first
+solve (`111`, `own 0` once each) are not kept -/
+example : (∀ f ∈ walk exE2.H false (exE2.ucls 0), exE2.fac f 0 = none) ∧
+    (solveLeaf exE2 exSt1 0 0).1.uout 0 = some 3 ∧ (solveLeaf exE2 exSt1 0 0).2.1 = 7 ∧
+    (solveLeaf exE2 exSt1 0 0).1.heap.marks 3 = [.proc 110, .proc 110, .proc 111, .proc 116, .own 0] ∧
+    (solveLeaf exE2 exSt1 0 0).1.heap.marks 7 = [.proc 110, .proc 110, .proc 111, .proc 116, .own 0] := by decide
+
+/-- `sequence_member_hands_on_last_pre_output`: a round over the members 0, 1 started from `exSt1` - member 1 is
+entered with object 7, the profile member 0 returned -/
+example : ((solveSubs exE2 [0, 1] exSt1 0).2.2.filter (fun e => e.phase.isNone ∧ e.consulted.isNone)).take 3 =
+    [.enter 0 0, .own 0, .leave 0 7 6 3 [.proc 110, .proc 110, .proc 111, .proc 116, .own 0]
+      [.proc 110, .proc 110, .proc 111, .proc 116] [.proc 110, .proc 110, .proc 111, .proc 116, .own 0]] ∧
+    .enter 1 7 ∈ (solveSubs exE2 [0, 1] exSt1 0).2.2 := by decide
 
 /-- `registration_between_base_and_subclass` on the library's hierarchy: `K(TwoRollPass)`=11, `L(K)`=12 defined after
 the library classes; registrations on `TwoRollPass`, `DeformationUnit`, `Unit`, `BaseRollPass` (after the library's
@@ -861,6 +1040,98 @@ example : (execS exE (initCallees srcProgs exE) 0
       [.bind .loc .arg, .loop Gen.C18.pre_loop, .newIn .loc, .newOut .arg true]
       { st := exSt, arg := 0 }).map (fun r => r.1.st.heap.marks 2) ≠
     some ((initSolve exE exSt 0 0).1.heap.marks 2) := by decide
+
+/-- hence `out_profile_is_last_pre_output` speaks about the source: running the source's `init_solve` from ANY state
+leaves `self.out_profile` - a new object at the first solve, the SAME object at every later one - carrying what the
+last pre-processor returned, like `self.in_profile` -/
+theorem source_out_profile_is_last_pre_output (E : Env) (st : RState) (u inp : Nat) (hin : inp < st.heap.n) :
+    ∃ r ip op, runInitSolve srcProgs E u st inp = some r ∧ r.1.uin u = some ip ∧ r.1.uout u = some op ∧
+      (∀ o, st.uout u = some o → op = o) ∧ (st.uout u = none → st.heap.n ≤ op ∧ op ≠ ip) ∧
+      r.1.heap.marks op = r.1.heap.marks (lastRet inp r.2) ∧ r.1.heap.marks op = r.1.heap.marks ip := by
+  obtain ⟨ip, op, h⟩ := out_profile_is_last_pre_output E st u inp hin
+  exact ⟨_, ip, op, init_solve_program_refines_initSolve E st u inp, h⟩
+
+example : (runInitSolve srcProgs exE 0 exSt1 0).map (fun r => (r.1.uin 0, r.1.uout 0, r.1.heap.marks 3, r.1.heap.marks 0)) =
+    some (some 6, some 3, [.proc 110, .proc 110, .proc 111, .proc 116], [.proc 110, .proc 110]) := by decide
+
+/-- **WHICH variable `init_solve` hands over**: every profile variable from which the source's `init_solve` builds
+`self.in_profile`, a new `self.out_profile`, and from which its re-use branch takes the entries for an existing out
+profile (`handoverRefs`: read from the statements; `self.in_profile` counting as the variable it was just built from)
+denotes, after the source's pre-processor loop over ANY factory
+list in ANY frame, the output of the last pre-processor (`chain … .2.1`) - the variable the loop rebinds, not a
+variable still holding the profile as the caller passed it -/
+theorem source_handover_reads_last_pre_output (E : Env) (u : Nat) (fs : List Nat) (e : MEnv) :
+    handoverRefs Gen.C18.init_solve ≠ [] ∧
+    ∀ r ∈ handoverRefs Gen.C18.init_solve,
+      (runLoop E true u Gen.C18.pre_loop.body fs e).map (fun x => x.1.get u r) =
+        some (some (chain E true u fs e.st.heap e.arg).2.1) := by
+  refine ⟨by decide, ?_⟩
+  intro r hr
+  rw [pre_loop_program_refines_chain]
+  have hall : ∀ r ∈ handoverRefs Gen.C18.init_solve, r = .arg := by decide
+  rw [hall r hr]
+  rfl
+
+example : handoverRefs Gen.C18.init_solve = [.arg, .arg, .arg] ∧
+    Gen.C18.pre_loop.body = [.callFactory, .ifNone .skip, .logProc, .solve (some .arg) .arg] := by decide
+/-- a re-use branch that hands over from `self.in_profile` (just built from the loop's variable) reads the same values;
+one that reads an in profile built BEFORE the loop does not -/
+example : handoverRefs [.loop Gen.C18.pre_loop, .newIn .arg,
+      .newOrRefreshOut .arg { Gen.C18.out_refresh with src := .selfIn }] = [.arg, .arg, .arg] ∧
+    handoverRefs [.newIn .arg, .loop Gen.C18.pre_loop,
+      .newOrRefreshOut .arg { Gen.C18.out_refresh with src := .selfIn }] = [.arg, .arg, .selfIn] := by decide
+
+/-- an `init_solve` whose pre-processor loop runs on a second local (`processed`), with `InProfile` and a NEW
+`OutProfile` built from it, but whose re-use branch still hands over from the method's parameter - the profile as the
+CALLER passed it, before the pre-processors -/
+def rawHandover : List SInstr :=
+  [.bind .loc .arg,
+   .loop { walk := .pre, body := [.callFactory, .ifNone .skip, .logProc, .solve (some .loc) .loc] },
+   .newIn .loc, .newOrRefreshOut .loc { Gen.C18.out_refresh with src := .arg }]
+
+/-- … does what the model does at a FIRST solve, and after in-place pre-processors; at a re-solve in which a
+pre-processor hands back a new object the re-used out profile (object 3) gets the caller's `[110, 110]` instead of
+the last pre-processor's `[110, 110, 111, 116]`: it does NOT refine the model, and one of its hand-over variables
+is not the one its loop rebinds -/
+example :
+    (execS exE (initCallees srcProgs exE) 0 rawHandover { st := exSt, arg := 0 }).map
+        (fun r => (r.1.st.uin 0, r.1.st.uout 0, r.1.st.heap.marks 2, r.1.st.heap.marks 3)) =
+      some ((initSolve exE exSt 0 0).1.uin 0, (initSolve exE exSt 0 0).1.uout 0,
+        (initSolve exE exSt 0 0).1.heap.marks 2, (initSolve exE exSt 0 0).1.heap.marks 3) ∧
+    (execS exE (initCallees srcProgs exE) 0 rawHandover { st := exSt1, arg := 0 }).map
+        (fun r => (r.1.st.heap.marks 6, r.1.st.heap.marks 3)) =
+      some ([.proc 110, .proc 110, .proc 111, .proc 116], [.proc 110, .proc 110]) ∧
+    (execS exE (initCallees srcProgs exE) 0 rawHandover { st := exSt1, arg := 0 }).map (fun r => r.1.st.heap.marks 3) ≠
+      some ((initSolve exE exSt1 0 0).1.heap.marks 3) ∧
+    handoverRefs rawHandover = [.loc, .loc, .arg] := by decide
+
+/-- what the re-use branch does to the marks (`refreshMarks`, used by the interpreter) is what it does to any public
+non-root entry which both profiles hold (`refreshEntry`) -/
+theorem refreshMarks_is_refreshEntry (r : Refresh) (old new : List Mark) :
+    refreshMarks r old new = (refreshEntry r (some old) (some new)).getD [] := by
+  unfold refreshMarks refreshEntry
+  simp only [Option.isSome_some, Bool.true_and]
+  cases r.delete.all (litHolds { pub := true, root := false, handed := true, present := true }) <;> simp <;>
+    split <;> rfl
+
+/-- **the re-use branch as read hands over EVERY public entry that is no root hook** - evaluated on the literals of its
+delete and set conditions: a value the last pre-processor's output holds is what the re-used out profile holds
+afterwards, whether it held another value under that name (`old = some _`: CHANGED) or none (`old = none`: ADDED); a
+value the out profile still held from the earlier solve and which the last pre-processor's output does not have
+(`new = none`) is removed. -/
+theorem source_reuse_branch_hands_over_every_entry {α : Type} (old new : Option α) :
+    refreshEntry Gen.C18.out_refresh old new = new := by
+  cases old <;> cases new <;> rfl
+
+example : refreshEntry Gen.C18.out_refresh (some 1) (some 2) = some 2 ∧
+    refreshEntry Gen.C18.out_refresh (none : Option Nat) (some 2) = some 2 ∧
+    refreshEntry Gen.C18.out_refresh (some 1) (none : Option Nat) = none := by decide
+/-- a set loop that only fills in missing entries keeps the OLD value of a changed entry, a branch without the delete
+loop keeps an outdated entry: neither hands over every entry -/
+example : refreshEntry { Gen.C18.out_refresh with set := [.isPresent false] } (some 1) (some 2) = some 1 ∧
+    refreshEntry { Gen.C18.out_refresh with set := [.isPresent false] } (none : Option Nat) (some 2) = some 2 ∧
+    refreshEntry { Gen.C18.out_refresh with delete := [.isPublic false] } (some 1) (none : Option Nat) = some 1 := by
+  decide
 
 /-! ### `_solve_subunits`, the solution loop -/
 
